@@ -80,6 +80,20 @@ def invalid_args_case(rng):
         {"op": "hardlink", "path": "/l", "target": "/absent"}, {"op": "hardlink", "path": "/nope/l", "target": "/keep"}, {"op": "hardlink", "path": "/keep", "target": "/keep"},
         {"op": "mkgroup", "path": "/keep"}, {"op": "mkgroup", "path": "/keep/sub"}, {"op": "mkds", "path": "/keep/sub", "dtype": "int32", "dims": [1]},
         {"op": "mkgroup", "path": "//x"}, {"op": "mkgroup", "path": "/a//b"}, {"op": "softlink", "path": "", "target": "/keep"},
+        # the other creation paths of the write API
+        {"op": "mkcompound", "path": "/z", "dims": [2], "members": [], "csize": 4, "enc": "v3"},
+        {"op": "mkcompound", "path": "/z", "dims": [], "members": [{"name": "a", "type": "int32", "off": 0}], "csize": 4, "enc": "fields"},
+        {"op": "mkcompound", "path": "/keep", "dims": [2], "members": [{"name": "a", "type": "int32", "off": 0}], "csize": 4, "enc": "fields"},
+        {"op": "mkcompound", "path": "/z", "dims": [4], "chunk": [2], "members": [{"name": "a", "type": "int32", "off": 0}], "csize": 4, "enc": "fields"},
+        {"op": "mkcompound", "path": "/z", "dims": [2], "members": [{"name": "a", "type": "int32", "off": 2}], "csize": 6, "enc": "fields"},
+        {"op": "mkds", "path": "/z", "dtype": "array:int32", "dims": [2]}, {"op": "mkds", "path": "/z", "dtype": "enum:int8", "dims": [2]},
+        {"op": "mkds", "path": "/z", "dtype": "enum:int8", "dims": [2], "enames": ["A", "B"], "evals": [1]},
+        {"op": "mkds", "path": "/z", "dtype": "opaque", "dims": [2], "strsize": 0, "tag": "t"},
+        {"op": "mkdense", "path": "/z", "links": {"a": "/absent"}}, {"op": "mkdense", "path": "/nope/z", "links": {"a": "/keep"}},
+        {"op": "mkdense", "path": "/keep", "links": {"a": "/keep"}}, {"op": "mkdense", "path": "z", "links": {"a": "/keep"}},
+        {"op": "mkgrouplinks", "path": "/z", "links": {"a": "/keep"}}, {"op": "mkgrouplinks", "path": "/z", "links": {"l%d" % i: "/absent" for i in range(9)}},
+        {"op": "mkgrouplinks", "path": "/keep", "links": {}},
+        {"op": "write", "path": "/keep", "vals": ["00", "01"]}, {"op": "write", "path": "/keep", "raw": True, "val": "0102"},
     ]
     rng.shuffle(bad)
     for b in bad[:rng.randint(3, len(bad))]:
@@ -106,5 +120,5 @@ def run(ctx):
     return histcheck.run(ctx, cases_for(ctx.rng, ctx.tier), "C16", tags=None, unit_modules=["c04unit"],
                          rule_extra="C16 cases: valid operations interleaved with operations chosen to fail at each validation and capacity point "
                                     "(32-entry groups, 256-byte name heaps, 255-byte headers, dense attribute storage, closed writer, invalid "
-                                    "arguments); the logical content after Close must equal the model that ignores failed calls, no call may "
+                                    "arguments; also for CreateCompoundDataset, the array/enum/opaque kinds of CreateDataset, CreateDenseGroup and CreateGroupWithLinks); the logical content after Close must equal the model that ignores failed calls, no call may "
                                     "panic, Close is called repeatedly.")
